@@ -29,6 +29,8 @@ def run(ck):
     ck.technique = "substitution of scaled atoms into series normal forms; polynomial identities"
     funcs = process_functions(repo)
     ck.floor("process functions", len(funcs), 4)
+    from ..purity import purity
+    purity(ck, repo, funcs)
     for func in funcs:
         ck.analysed_function(func)
         models = [m for m in evaluate(repo, func, ck.tier) if isinstance(m, PM)]
